@@ -63,7 +63,8 @@ class C20(Check):
     prop_module = "PoxModel.Properties.C20"
     lean_targets = ["drv_c20"]
     driver = "drv_c20"
-    theorems = ["Pox.C20.ioworker_stream", "Pox.C20.ioworker_drained", "Pox.C20.ioworker_after_fatal", "Pox.C20.ioworker_unguarded_defect", "Pox.C20.ctl_stream",
+    theorems = ["Pox.C20.ioworker_stream", "Pox.C20.ioworker_drained", "Pox.C20.ioworker_after_fatal", "Pox.C20.ioworker_unguarded_defect", "Pox.C20.ioworker_shutdown",
+                "Pox.C20.shutdown_with_pending", "Pox.C20.ioworker_progress", "Pox.C20.ctl_stream",
                 "Pox.C20.ctl_quiescent", "Pox.C20.ctl_after_fatal", "Pox.C20.ctl_no_attempt_after_fatal"]
     anchors = [("pox/lib/ioworker/__init__.py", "IOWorker._do_send"), ("pox/lib/ioworker/__init__.py", "IOWorker._consume_send_buf"),
                ("pox/lib/ioworker/__init__.py", "IOWorker.send"), ("pox/lib/ioworker/__init__.py", "RecocoIOWorker.send_fast"), ("pox/lib/ioworker/__init__.py", "RecocoIOWorker.send"),
@@ -86,7 +87,7 @@ class C20(Check):
                    "controller connection: `disconnected` is only ever set by a fatal SEND error in this model; a disconnect from the cooperative side (read EOF, echo timeout, application disconnect()) while data is deferred is not an action of the model",
                    "select never reports an exceptional condition (elist) for a connection with deferred data: DeferredSender.run would then drop the queued data silently and leave the connection up (outside the property's fault alphabet: short writes, would-block, fatal errors); likewise its outer bare `except`",
                    "'reported closed exactly once' for the controller connection is ConnectionDown: as a THEOREM it is C09's down_once (both fatal paths end in Connection.disconnect, guarded by disconnection_raised); here the oracle counts the ConnectionDown events of an announced connection on the real code after every part-B history (exactly one on the nexus and one on the connection iff a fatal error occurred, the serving task's con.close() included); part A proves it for the IOWorker",
-                   "IOWorker: connecting sockets (_connecting/_try_connect) are not modelled; shutdown(send) is not in the Lean model — histories containing it are judged by the oracle alone (the socket is shut down for writing only once everything queued has been written, and is shut down once it has)"]
+                   "IOWorker: connecting sockets (_connecting/_try_connect) are not modelled; shutdown(send) is in the Lean model (theorem ioworker_shutdown: the socket is shut down for writing only once everything queued has been written, at most once, and is shut down once a request that had to wait is drained); a request made when nothing is pending is never carried out by the code, and the model says the same"]
     rule = ("case A = op sequence over {send, send_fast(outcome), loop iteration(outcome), loop iteration with the worker readable AND writable (data / end of stream / receive error, then outcome)}; case B = action sequence over {Connection.send(data, outcome), sender iteration(outcomes), "
             "other connection defers / is flushed}; corpus = all sequences of 3 messages x 4 calls over 6 outcomes (A) and all B sequences of length <= 4 over a 9-letter alphabet; "
             "every case carries the errno of its fatal outcome (14 numbers) and the spelling of would-block (EAGAIN / EWOULDBLOCK): every error other than would-block is fatal (the code's rule, the model's single `fatal` outcome); "
@@ -398,13 +399,13 @@ class C20(Check):
 
     def model_request(self, case):
         if case["part"] == "T": return None
-        if case["part"] == "A" and any(op["op"] == "shutdown" for op in case["ops"]): return None     # shutdown(send) is not in the model: oracle only
         if case["part"] == "A":
             ops = []
             for op in case["ops"]:
                 if op["op"] == "send": ops.append({"op": "send", "d": data(op["i"], op["n"]).hex()})
                 elif op["op"] == "sendfast": ops.append(dict(op="sendfast", d=data(op["i"], op["n"]).hex(), **self._o(op["o"])))
                 elif op["op"] == "pumprw": ops.append(dict(op="pumprw", rx=op["rx"], **self._o(op["o"])))
+                elif op["op"] == "shutdown": ops.append({"op": "shutdown"})
                 else: ops.append(dict(op="pump", **self._o(op["o"])))
             return {"part": "A", "ops": ops, "guard": self.guard_closed}
         acts, total = [], 0
@@ -428,12 +429,12 @@ class C20(Check):
 
     def impl_view(self, case, obs):
         if case["part"] == "A":
-            return {k: obs[k] for k in ("accepted", "send_buf", "closed", "close_events", "offered")}
+            return {k: obs[k] for k in ("accepted", "send_buf", "closed", "close_events", "offered", "shut_wr")}
         return {k: obs[k] for k in ("accepted", "pending", "disc", "sending", "offered_after_disc")}
 
     def model_obs(self, case, resp):
         if "error" in resp: return resp
-        keys = ("accepted", "send_buf", "closed", "close_events", "offered") if case["part"] == "A" else ("accepted", "pending", "disc", "sending", "offered_after_disc")
+        keys = ("accepted", "send_buf", "closed", "close_events", "offered", "shut_wr") if case["part"] == "A" else ("accepted", "pending", "disc", "sending", "offered_after_disc")
         return {k: resp[k] for k in keys}
 
     # ------------------------------------------------------------------ the property on the implementation
